@@ -74,8 +74,9 @@ def check(ctx):
     ctx.rule("C16-R9", "inertia tensor I = sum_a m_a (|r_a|^2 1 - r_a r_a^T) about the centre of mass (both implementations); Q = 1/(2N) sum_j (3 e_j e_j^T - 1) over normalised directors; "
                        "nematic order = largest eigenvalue of Q")
     r_tensor(ctx)
-    from .c05 import no_foreign_attribute_stores
+    from .c05 import no_foreign_attribute_stores, periodic_plumbing
     no_foreign_attribute_stores(ctx, "C16-R5", [CONTACT, SHAPE, ORDER, RG, THERMO, RDF, NMR], floor=20)
+    periodic_plumbing(ctx, "C16-R5", only=[CONTACT, RDF], floor=4)
 
 
 # ---------------------------------------------------------------------------------------------------
@@ -314,7 +315,7 @@ def r5(ctx):
                     names = [_n(src(x.value.func)) for x in stmts if isinstance(x, ast.Expr) and isinstance(x.value, ast.Call)]
                     if "atom_pairs.append" in names and "filtered_residue_pairs.append" in names:
                         same_block = True
-        ok = len(apps) == 2 and same_block and "residue_pairs=np.array(filtered_residue_pairs)" in t and "distances=md.compute_distances(traj,atom_pairs,periodic=periodic)" in t
+        ok = len(apps) == 2 and same_block and "residue_pairs=np.array(filtered_residue_pairs)" in t
     ctx.decide(ok, "C16-R5", ca[0] if ca else fn, CONTACT, "compute_contacts", "scheme 'ca': atom pair and residue label are appended in the same branch; labels = filtered pairs", "", "the CA scheme no longer filters labels in lock-step with the atom pairs")
     # the list handed to compute_distances is the list that was built: no reordering between the appends and the call
     if ca:
@@ -466,12 +467,12 @@ def _spec(shape, f):
     return Ten(shape, [f(*i) for i in itertools.product(*[range(s) for s in shape])])
 
 
-def _decide_tensor(ctx, rule, rel, q, what, given, want, atoms=None, funcs=None, models=None, post=None):
+def _decide_tensor(ctx, rule, rel, q, what, given, want, atoms=None, funcs=None, models=None, post=None, ts=None):
     """Evaluate function q with `given` arguments and compare the result with the Ten / Rat `want`."""
     fn = ctx.py.func(rel, q)
     ctx.analysed_files.add(rel)
     ctx.analysed_functions.add(rel + ":" + q)
-    ts = TenSym({}, funcs=funcs or {}, models=models or {})
+    ts = ts if ts is not None else TenSym({}, funcs=funcs or {}, models=models or {})
     try:
         got = ts.run_fn(fn, **given)
         if post is not None:
@@ -578,16 +579,29 @@ def r_tensor(ctx):
         ctx.violated("C16-R9", no, ORDER, "compute_nematic_order", "largest eigenvalue of Q", "the array operations do not fit: %s" % e_)
     except (TUnsupported, PUnsupported) as e_:
         ctx.undecided("C16-R9", no, ORDER, "compute_nematic_order", "largest eigenvalue of Q", "not evaluable: %s" % e_)
-    # ---- R6 density
-    V = traj.unitcell_volumes
+    # ---- R6 density: the cell volume of the model is given both as a field and through lengths / angles (V = abc sqrt(1 - sum cos^2 + 2 prod cos))
     conv = Rat(Poly.const(__import__("fractions").Fraction("1.6605387823355087")))
     fn = ctx.py.func(THERMO, "density")
     cv = [const(n.value) for n in walk_no_nested(fn) if isinstance(n, ast.Assign) and dotted(n.targets[0]) == "conversion"]
     ctx.decide(bool(cv) and isinstance(cv[0], float) and abs(cv[0] - 1.66053907) < 1e-6, "C16-R6", fn, THERMO, "density", "conversion = 1.660539 (amu/nm^3 -> kg/m^3)", "", "unit conversion constant is %r" % (cv[:1],))
     cvr = Rat(Poly.const(__import__("fractions").Fraction(str(cv[0])))) if cv and isinstance(cv[0], float) else conv
-    _decide_tensor(ctx, "C16-R6", THERMO, "density", "rho[f] = conversion * sum_a m_a / V[f] (element masses)", {"traj": traj}, _spec((N_F,), lambda f: cvr * M / V.at([f])), funcs=funcs)
+
+    def cell_model(ts_):
+        Lc, Ac = Ten.sym("L", (N_F, 3)), Ten.sym("ang", (N_F, 3))
+        vols = []
+        for f in range(N_F):
+            cs = [ts_.fn("cos", Ac.at([f, k]) * Rat(Poly.var("pi")) / 180) for k in range(3)]
+            inner = Rat(Poly.const(1)) - cs[0] * cs[0] - cs[1] * cs[1] - cs[2] * cs[2] + 2 * cs[0] * cs[1] * cs[2]
+            vols.append(Lc.at([f, 0]) * Lc.at([f, 1]) * Lc.at([f, 2]) * ts_.fn("sqrt", inner))
+        traj.unitcell_lengths, traj.unitcell_angles, traj.unitcell_volumes = Lc, Ac, Ten((N_F,), vols)
+        return traj.unitcell_volumes
+    ts_d = TenSym({}, funcs=funcs)
+    V = cell_model(ts_d)
+    _decide_tensor(ctx, "C16-R6", THERMO, "density", "rho[f] = conversion * sum_a m_a / V[f] (element masses; V the cell volume of frame f)", {"traj": traj}, _spec((N_F,), lambda f: cvr * M / V.at([f])), ts=ts_d)
     mu = Ten.sym("mu", (N_A,))
-    _decide_tensor(ctx, "C16-R6", THERMO, "density", "rho[f] = conversion * sum(masses) / V[f] (given masses)", {"traj": traj, "masses": mu}, _spec((N_F,), lambda f: cvr * sum(mu.data, Rat(Poly.const(0))) / V.at([f])), funcs=funcs)
+    ts_d = TenSym({}, funcs=funcs)
+    V = cell_model(ts_d)
+    _decide_tensor(ctx, "C16-R6", THERMO, "density", "rho[f] = conversion * sum(masses) / V[f] (given masses)", {"traj": traj, "masses": mu}, _spec((N_F,), lambda f: cvr * sum(mu.data, Rat(Poly.const(0))) / V.at([f])), ts=ts_d)
     # ---- R6 dipole moments: mu[f] = sum_a q_a * (r_a relative to atom 0 through the first atom of its residue, both legs minimum-image)
     def disp_model(ev_, call):
         idx = ev_.to_ten(ev_.ex(call.args[1]))
